@@ -60,6 +60,26 @@ fn main() {
                 },
                 Err(e) => format!("ERR\t{}", e),
             },
+            // compile with the wall clock read before and after the call (for the clock-window clause of C15)
+            "timed" => {
+                let now = || std::time::SystemTime::now().duration_since(std::time::UNIX_EPOCH).map(|d| d.as_secs()).unwrap_or(0);
+                match lipe_find_parser::parse(&parts[1]) {
+                    Ok((opt, exp)) => {
+                        let t0 = now();
+                        let r = lipe_find_parser::compile(&exp, &opt);
+                        let t1 = now();
+                        match r {
+                            Ok(c) => format!("OK\t{}\t{}\t{}", t0, t1, c.scheme("/")),
+                            Err(e) => format!("CERR\t{}", e),
+                        }
+                    }
+                    Err(e) => format!("ERR\t{}", e),
+                }
+            }
+            "sleep" => {
+                std::thread::sleep(std::time::Duration::from_millis(parts[1].parse().unwrap_or(0)));
+                "OK\tslept".to_string()
+            }
             other => format!("ERR\tunknown request {}", other),
         });
         match res {
